@@ -2,7 +2,7 @@
 import glob, json, os
 import vlib
 
-PROOFS = ["C05/ProofsBase.vo", "C05/ProofsChol.vo", "C05/ProofsLdl.vo", "C05/ProofsHouse.vo", "C05/ProofsGivens.vo",
+PROOFS = ["C05/Refuted.vo", "C05/ProofsBase.vo", "C05/ProofsChol.vo", "C05/ProofsLdl.vo", "C05/ProofsHouse.vo", "C05/ProofsGivens.vo",
           "C05/ResidProofs.vo"]
 TARGETS = ["Base/Num.vo", "Base/Corr.vo", "C05/Model.vo", "C05/Corr.vo", "C05/Resid.vo", "C05/Spec.vo", "C05/SpecTest.vo"] \
           + PROOFS + ["C05/Props.vo"]
@@ -167,8 +167,8 @@ def run(ctx):
         if r["found"]:
             okk = account(r["site"], r["class"], inp, r["failure"],
                           {"rcase": {"iter": inp} if r["is_iter"] else {"direct": inp}, "orig": r.get("orig")})
-            if from_corr and okk:
-                explained_direct.add(r["idx"])
+            if from_corr:
+                explained_direct.add(r["idx"])   # reported (as known finding or as violation with its input)
         elif not from_corr:
             unexplained.append(({"rcase": {"iter": inp} if r["is_iter"] else {"direct": inp},
                                  "obligation": "C05.Resid.rcheck vs Go oracle"}, False,
